@@ -93,6 +93,9 @@ def generate(tier, seed, shard, nshards):
         stratum = 'random'
         if k % 3 == 1:
             d = salted(rng, d); stratum = 'salted'
+        if k % 8 == 6:
+            # bridged elements (both terminals on one node): they must not change any port impedance
+            G.add_self_loops(random.Random(f'{seed}/{shard}/{k}/loop'), d); stratum += '+self-loop'
         yield {'kind': 'net', 'stratum': stratum, 'net': d}
     for _ in range(N_CIRC[tier] // nshards):
         cd = GC.random_circuit(rng, max_nodes=5, max_comps=8, n_reactive=(1, 3), sources=['dc_voltage_source', 'ac_voltage_source', 'dc_current_source'],
